@@ -1317,6 +1317,13 @@ impl<'t, 'd> Gen<'t, 'd> {
         for _ in 0..n {
             let (i, text) = refs[self.t.choose(refs.len())].clone();
             if used.contains(&i) {
+                // sometimes a key is mentioned again later in the list (other direction): it has no effect
+                if !keys.is_empty() && self.t.chance(1, 3) {
+                    let first_desc = keys.iter().find(|k: &&SortKey| matches!(&k.expr, Expr::Col(c) if c.idx == i)).map(|k| k.desc);
+                    if let Some(d) = first_desc {
+                        keys.push(SortKey { desc: !d, explicit_plus: false, expr: Expr::Col(ColRef { idx: i, text }) });
+                    }
+                }
                 continue;
             }
             used.push(i);
